@@ -1,6 +1,8 @@
 import CddVerif.Driver.Basic
 import CddVerif.Model.Doc
 import CddVerif.Proofs.DocRoundTripDomain
+import CddVerif.Proofs.DocGNRoundTripDomain
+import CddVerif.Driver.C14GN
 /-! Driver ops for C01 (line protocol; see Main.lean). Only Mathlib-free imports here. -/
 namespace Driver.C01
 open Lean Driver Doc
@@ -80,6 +82,11 @@ def ops : List (String × Handler) := [
     let et := (getBool j "emit_types").toOption.getD true
     let edd := (getBool j "edd").toOption.getD true
     return Json.mkObj [("indomain", Json.bool (C01Whole.inDomainB ir)), ("exp", irJ (DocRT.expIR ir et edd))]),
+  -- the Google whole-docstring theorem's domain test and predicted interface (Properties/C01Google.lean: google_roundtrip_full)
+  ("c01.google", fun j => do
+    let ir ← irOf (← j.getObjVal? "ir")
+    let edd := (getBool j "edd").toOption.getD true
+    return Json.mkObj [("indomain", Json.bool (C01Google.inDomainGB ir)), ("exp", Driver.C14GN.irJ (DocGNRT.expIRG ir edd))]),
   ("c01.needs_quoting", fun j => do
     return Json.mkObj [("r", Json.bool (needsQuoting (optChars j "typ")))])
 ]
